@@ -36,6 +36,22 @@ CLAIMED = {
         "masked by retransmission.",
         "DESIGN.md 7 C02",
     ),
+    "C03": (
+        "exploration",
+        "deterministic simulation with fault injection: seeded configuration pairs under loss/reordering with an "
+        "agreement oracle over both secrets logs; restart with kept session ticket; bad-certificate servers; in-flight "
+        "rewrite of handshake bytes with the keys; byte x mask enumeration of every handshake message at TLS level",
+        "Agreement: for seeded pairs of configurations (certificate types and chains, suite lists, version lists incl. "
+        "Version Negotiation, ALPN lists, Retry, resumption and 0-RTT via a restart with the kept ticket) whenever both "
+        "endpoints complete they must hold identical secrets and report the same version, suite, ALPN and resumption "
+        "status, and with no common option neither completes. Authenticity: six kinds of bad server certificates never "
+        "let the client complete. Transcript integrity: every byte x 3 masks of every claimed handshake message "
+        "between two real tls.Context objects (all positions in thorough), and at QUIC level one byte of a CRYPTO frame "
+        "rewritten in flight and re-protected with the genuine keys.",
+        "Trusted: tls13/ and wire/ reference code, cryptography. QUIC-level rewrite claims only bytes the receiver "
+        "consumes at once (not bytes parked behind a reassembly gap, which a genuine retransmission may overwrite).",
+        "DESIGN.md 7 C03",
+    ),
     "C05": (
         "exploration",
         "deterministic simulation with fault injection: hostile datagrams (random, mutated, coalesced, forged frames "
